@@ -698,7 +698,7 @@ func c15Report(rep *Report, out c15Out, replay func() map[string]any, counts map
 func TestC15(t *testing.T) {
 	rep := NewReport("C15")
 	defer rep.Finish(t)
-	rep.Rule = "every terminal state of spec/TimeDur.tla is replayed on the real code: durations on the boundary classes (all sub-second patterns with <= 2 non-zero digits of 9 plus dense ones, carries, signs, int64 extremes) through Duration.MarshalText/UnmarshalText; template- and item-generated duration strings (accept and reject side of the xsd:duration lexical space); instants at year 1/1969/1970/leap days/9999 x ms boundary +-1 ns and half-ms x zone offsets through RelaxedTime; field-mutated dateTime strings; EntityDescriptor shapes (endpoint binding x scheme table, optional parts) and EntitiesDescriptor shapes through two xml.Marshal/Unmarshal generations; ServiceProvider.Metadata/IdentityProvider.Metadata configurations; every marshal / generation step in the hand-over mode the spec chose (20 modes for struct types: xml.Marshal / MarshalIndent / Encoder.Encode / EncodeElement of the value, a pointer, a pointer to an interface, the value as field / pointer field / slice, pointer-slice, array element / interface field of an enclosing struct passed by value or by pointer; 16 for Duration / RelaxedTime: direct call, XML element / attribute / omitempty attribute, JSON string, by value, pointer, slice element, map value, interface); a slots family over every struct type that carries an instant or a duration (metadata and protocol types, two nested trees) x all modes; plus seeded random int64 durations and instants, half of them through a random carrier, logged to trace.ndjson for TimeDurTrace.tla; non-trivial = class MustAccept or MustReject"
+	rep.Rule = "every terminal state of spec/TimeDur.tla is replayed on the real code: durations on the boundary classes (all sub-second patterns with <= 2 non-zero digits of 9 plus dense ones, carries, signs, int64 extremes) through Duration.MarshalText/UnmarshalText; template- and item-generated duration strings (accept and reject side of the xsd:duration lexical space); instants at year 1/1969/1970/leap days/9999 x ms boundary +-1 ns and half-ms x zone offsets through RelaxedTime; field-mutated dateTime strings; EntityDescriptor shapes (endpoint binding x scheme table, optional parts) and EntitiesDescriptor shapes (optional parts; trees of 1 .. 1200 groups per level, depth 1 .. 5, chains of 999 / 1000 / 1001, with and without EntityDescriptor leaves: within the nesting bound every width must re-parse to an equal value) through two xml.Marshal/Unmarshal generations; ServiceProvider.Metadata/IdentityProvider.Metadata configurations; every marshal / generation step in the hand-over mode the spec chose (20 modes for struct types: xml.Marshal / MarshalIndent / Encoder.Encode / EncodeElement of the value, a pointer, a pointer to an interface, the value as field / pointer field / slice, pointer-slice, array element / interface field of an enclosing struct passed by value or by pointer; 16 for Duration / RelaxedTime: direct call, XML element / attribute / omitempty attribute, JSON string, by value, pointer, slice element, map value, interface); a slots family over every struct type that carries an instant or a duration (metadata and protocol types, two nested trees) x all modes; plus seeded random int64 durations and instants, half of them through a random carrier, logged to trace.ndjson for TimeDurTrace.tla; non-trivial = class MustAccept or MustReject"
 	rep.Assume("error texts are not compared; equality of metadata values is modulo XMLName (set by encoding/xml on parse only), nil vs empty slices, and instants compared after rounding to the millisecond in UTC (the statement's equality for instants)")
 	lines := loadLines(t, "vectors.ndjson")
 	if len(lines) == 0 {
